@@ -99,11 +99,11 @@ def gen_rec(rng, hot):
     # millennia multiplies a huge interval (minutes of day-by-day tick-over)
     m = YEAR_RE.match(p)
     y1 = int(m.group(0)) if m else 2000
-    near = [min(9999, max(0, y1 + rng.choice([0, 0, 1, 4])))]
+    near = [y1 + rng.choice([0, 0, 1, 4])]
     return "R%s/%s/%s" % (n, p, gen_point(rng, near, date_only_ok=False))
 
 
-YEAR_RE = re.compile(r"^[+-]?\d{6}|^\d{4}")
+YEAR_RE = re.compile(r"^[+-]\d{6}|^\d{4}")
 
 OP_KINDS = ["diy", "dim", "wiy", "diyr", "leap", "cwds", "owds", "d1ad",
             "imd", "c_o", "c_w", "o_c", "o_w", "w_c", "w_o", "mk", "add",
